@@ -442,7 +442,7 @@ class Interp(object):
                        z3.And(v0 >= 0, v1 < v0), kind='variant')
         raise PathEnd()
 
-    def havoc_locals(self, s, env, annot):
+    def havoc_locals(self, s, env, annot, skip=()):
         names = set()
         for n in ast.walk(s):
             if isinstance(n, ast.Name) and isinstance(n.ctx, ast.Store):
@@ -450,7 +450,7 @@ class Interp(object):
             elif isinstance(n, ast.ExceptHandler) and n.name:
                 names.add(n.name)
         for nm in sorted(names):
-            if nm not in env.vars:
+            if nm not in env.vars or nm in skip:
                 continue
             cur = env.vars[nm]
             ty = (annot.types or {}).get(nm)
@@ -505,20 +505,36 @@ class Interp(object):
         yield from self.exec_block(s.orelse, env)
 
     def cut_for(self, s, env, seq, annot, key):
-        """for x in <SymSeq>: cut at an inductive invariant over the index"""
+        """for x in <SymSeq or abstract iterable>: cut at an inductive
+        invariant.  For a SymSeq the invariant ranges over the index; for an
+        abstract iterable (annot.abstract) the element is arbitrary."""
         ctx = self.ctx
         name = '%s.%s/loop%d' % key
         annot.used = True
-        n = z3.Length(seq.t)
+        indexed = isinstance(seq, SymSeq)
         for nm, f in annot.invariant(self, env, seq, z3.IntVal(0)):
             ctx.oblige('%s/inv-init/%s' % (name, nm), f, kind='inv-init')
-        self.havoc_locals(s.body[0] if False else _Body(s.body), env, annot)
+        self.havoc_locals(_Body(s.body + [ast.Expr(value=s.target)]), env,
+                          annot, skip=_target_names(s.target))
+        if annot.havoc_ghost:
+            annot.havoc_ghost(self, env)
         i = ctx.fresh_int('idx')
-        ctx.assume(z3.And(i >= 0, i <= n))
+        if indexed:
+            n = seq.length
+            ctx.assume(z3.And(i >= 0, i <= n))
+        else:
+            ctx.assume(i >= 0)
         for nm, f in annot.invariant(self, env, seq, i):
             ctx.assume(f)
-        if ctx.branch(i < n, 'loop%d-more' % key[2]):
-            x = mk(seq.t[i])
+        if indexed:
+            more = ctx.branch(i < n, 'loop%d-more' % key[2])
+        else:
+            more = ctx.choose(2, 'loop%d-more' % key[2]) == 0
+        if more:
+            if indexed:
+                x = mk(seq.at(i))
+            else:
+                x = annot.element(self, env, seq, i)
             if annot.on_element:
                 annot.on_element(self, env, seq, i, x)
             self.assign(s.target, x, env)
@@ -528,11 +544,14 @@ class Interp(object):
                 return
             except ContinueSig:
                 pass
+            if annot.at_iteration_end:
+                annot.at_iteration_end(self, env, seq, i, x)
             for nm, f in annot.invariant(self, env, seq, i + 1):
                 ctx.oblige('%s/inv-pres/%s' % (name, nm), f, kind='inv-pres')
             raise PathEnd()
         else:
-            ctx.assume(i == n)
+            if indexed:
+                ctx.assume(i == n)
             yield from self.exec_block(s.orelse, env)
 
     def iterate(self, it):
@@ -797,7 +816,7 @@ class Interp(object):
         if isinstance(v, (int, str, list, tuple, dict, frozenset)):
             return bool(v)
         if isinstance(v, SymSeq):
-            return self.ctx.branch(z3.Length(v.t) > 0, label)
+            return self.ctx.branch(v.length > 0, label)
         if isinstance(v, TupleObj):
             return len(v.items) > 0
         if isinstance(v, StrSubObj):
@@ -1012,6 +1031,10 @@ class _Body(ast.AST):
 
 
 _MISSING = object()
+
+
+def _target_names(t):
+    return set(n.id for n in ast.walk(t) if isinstance(n, ast.Name))
 
 
 def _load(t):
